@@ -22,6 +22,18 @@ def provenPeers (s : St) : List (Nat × PeerCp) := s.peers.filter (·.2.proved)
 
 /-! ## immutability -/
 
+/-- **C07 (never rewritten, index never decreases).**  Whatever the peers report and however
+ties are broken, the stored check points after `finalize` extend the stored check points before
+it: every final value stays what it was and the final index does not decrease. -/
+theorem immutable (s : St) (choices : List Nat) (out : FinOut)
+    (h : finalize s choices = .ok out) :
+    s.final <+: out.st.final := by
+  obtain ⟨-, h⟩ := finalize_ok h
+  rcases h with ⟨-, hf, -⟩ | ⟨-, -, ⟨-, hf⟩ | ⟨-, rest, acc, -, ⟨-, hf⟩ | ⟨index, cp, pid, cps, tl, -, -, hf⟩⟩⟩
+  · rw [hf]; exact List.prefix_refl _
+  · rw [hf]; exact List.prefix_refl _
+  · rw [hf]; exact List.prefix_refl _
+  · rw [hf]; exact List.prefix_append _ _
 
 /-- events of a check point history -/
 inductive Ev where
@@ -49,10 +61,116 @@ def applyEv (s : St) : Ev → St
     | .ok out => out.st
     | .error _ => s
 
+theorem applyEv_final (s : St) (ev : Ev) : s.final <+: (applyEv s ev).final := by
+  cases ev with
+  | connect pid proved start cp => exact List.prefix_refl _
+  | disconnect pid => exact List.prefix_refl _
+  | prove pid proved => exact List.prefix_refl _
+  | addCps pid lastProved startNumber cps =>
+    simp only [applyEv]
+    split
+    · exact List.prefix_refl _
+    · split <;> exact List.prefix_refl _
+  | finalize choices =>
+    simp only [applyEv]
+    split
+    · rename_i out h; exact immutable s choices out h
+    · exact List.prefix_refl _
+
+/-- **C07 (immutability along every history).**  For every sequence of connects, disconnects,
+prove-state changes, check point messages and refresh ticks, in any order, the final check points
+only ever grow by appending. -/
+theorem immutable_history (s : St) (evs : List Ev) :
+    s.final <+: (evs.foldl applyEv s).final := by
+  induction evs generalizing s with
+  | nil => exact List.prefix_refl _
+  | cons ev evs ih =>
+    rw [List.foldl_cons]
+    exact (applyEv_final s ev).trans (ih _)
 
 /-! ## quorum -/
 
+theorem getLast?_eq_getElem?_maxCp {s : St} (hne : s.final ≠ []) :
+    s.final[s.maxCp]? = some (s.final.getLast?.getD 0) ∧ s.maxCp + 1 = s.final.length := by
+  unfold St.maxCp
+  have : 0 < s.final.length := List.length_pos_iff.2 hne
+  rw [List.getLast?_eq_getElem?]
+  refine ⟨?_, by omega⟩
+  rw [List.getElem?_eq_getElem (by omega)]; rfl
 
+/-- **C07 (finalized only by quorum).**  Every check point index `i` that `finalize` newly makes
+final is backed by a set `S` of distinct, currently proven peers, at least half of the
+outbound-peer capacity (rounded up) in number, each of which reports the stored value for `i` and
+for every check point since the previously final one (inclusive). -/
+theorem quorum (s : St) (choices : List Nat) (out : FinOut)
+    (hne : s.final ≠ [])
+    (h : finalize s choices = .ok out) :
+    ∀ i, s.maxCp < i → i ≤ out.st.maxCp →
+      ∃ S : List (Nat × PeerCp), S.Sublist (provenPeers s) ∧ quorumSize s ≤ S.length ∧
+        ∀ e ∈ S, ∀ j, s.maxCp ≤ j → j ≤ i →
+          ∃ v, out.st.final[j]? = some v ∧ Reports e.2 j v := by
+  intro i hi1 hi2
+  obtain ⟨hreq, h⟩ := finalize_ok h
+  obtain ⟨hlast, hlen⟩ := getLast?_eq_getElem?_maxCp hne
+  have hsame : out.st.final = s.final → False := by
+    intro hf; unfold St.maxCp at hi1 hi2; rw [hf] at hi2; omega
+  rcases h with ⟨-, hf, -⟩ | ⟨-, -, ⟨-, hf⟩ | ⟨-, rest, acc, hag, ⟨-, hf⟩ | ⟨index, cp, pid, cps, tl, hacc, hrest, hf⟩⟩⟩
+  · exact (hsame hf).elim
+  · exact (hsame hf).elim
+  · exact (hsame hf).elim
+  · subst hacc
+    obtain ⟨idx', hsub, -, hsome⟩ := agree_inv1 hreq _ _ _ _ _ _ _
+      (show Inv1 (req s) (kept s) 1 (kept s) none from ⟨List.Sublist.refl _, fun _ => rfl, by simp⟩) hag
+    obtain ⟨-, hlenr, hagree⟩ := hsome index cp rfl
+    rw [kept_eq] at hsub
+    obtain ⟨S, hS, hSlen, hSsrc⟩ := sublist_filterMap_source hsub
+    refine ⟨S, hS, by show req s ≤ S.length; omega, ?_⟩
+    intro e he j hj1 hj2
+    obtain ⟨x, hx, hkeep⟩ := hSsrc e he
+    obtain ⟨-, hstart, hx2, hx0⟩ := keepOf_some hkeep
+    have hhead : (pid, cps) ∈ rest := by rw [hrest]; simp
+    have hout : out.st.maxCp + 1 = s.final.length + min index (cps.length - 1) := by
+      unfold St.maxCp; rw [hf]; simp; omega
+    by_cases hj : j = s.maxCp
+    · subst hj
+      refine ⟨s.final.getLast?.getD 0, ?_, hstart, hx0⟩
+      rw [hf, List.getElem?_append_left (by omega)]
+      exact hlast
+    · obtain ⟨hk, hkeq⟩ := hagree x hx (pid, cps) hhead (j - s.maxCp) (by omega) (by omega)
+      refine ⟨x.2[j - s.maxCp], ?_, by omega, ?_⟩
+      · rw [hf, List.getElem?_append_right (by omega), List.getElem?_take_of_lt (by omega),
+          List.getElem?_drop, ← List.getElem?_eq_getElem hk, hkeq]
+        congr 1; omega
+      · rw [← List.getElem?_eq_getElem hk, hx2, List.getElem?_drop]
+        congr 1; omega
+
+/-- **C07 (a peer contradicting a final value is banned).**  If enough proven peers are present
+for `finalize` to run, every proven peer whose vector starts after the final index, or reports a
+different value for the final index, is in the ban output; and nobody else is. -/
+theorem contradiction_banned (s : St) (choices : List Nat) (out : FinOut)
+    (hne : s.final ≠ [])
+    (h : finalize s choices = .ok out)
+    (henough : quorumSize s ≤ (provenPeers s).length) :
+    ∀ pid, pid ∈ out.banned ↔
+      ∃ e ∈ provenPeers s, e.1 = pid ∧
+        (s.maxCp < e.2.start ∨
+          (s.maxCp - e.2.start < e.2.cps.length ∧
+            e.2.cps[s.maxCp - e.2.start]? ≠ s.final.getLast?)) := by
+  intro pid
+  obtain ⟨-, h⟩ := finalize_ok h
+  have hlast : s.final.getLast? = some (s.final.getLast?.getD 0) := by
+    cases hl : s.final.getLast? with
+    | none => simp at hl; exact absurd hl hne
+    | some v => rfl
+  rcases h with ⟨hlt, -, -⟩ | ⟨-, hb, -⟩
+  · exact absurd henough (Nat.not_le_of_lt hlt)
+  · rw [hb, bannedOf, hlast]
+    simp only [List.mem_map, List.mem_filter, decide_eq_true_eq, clean_skipBan]
+    constructor
+    · rintro ⟨e, ⟨he, hc⟩, rfl⟩
+      exact ⟨e, he, rfl, hc⟩
+    · rintro ⟨e, he, rfl, hc⟩
+      exact ⟨e, ⟨he, hc⟩, rfl⟩
 
 /-! ## fewer deviating peers than the quorum are harmless -/
 
@@ -63,9 +181,91 @@ def keptVectors (s : St) : List (Nat × List Nat) :=
     | .keep cps _ => some (e.1, cps)
     | _ => none)
 
+/-- **C07 (minority harmless).**  Let `A` be at least a quorum of the surviving vectors that
+agree with each other on their first `L ≥ 2` positions (position 0 is the current final check
+point), and let all other surviving vectors together number fewer than the quorum — whatever
+they report, of whatever length.  Then `finalize` advances the final index by at least `L - 1`
+and the new final values are exactly `A`'s: the others can neither finalize a different value nor
+block the agreement. -/
+theorem minority_harmless (s : St) (choices : List Nat) (out : FinOut)
+    (A : List (Nat × List Nat)) (L : Nat) (ref : List Nat)
+    (hq : 1 ≤ quorumSize s)
+    (hA : A.Sublist (keptVectors s)) (hAq : quorumSize s ≤ A.length)
+    (hothers : (keptVectors s).length - A.length < quorumSize s)
+    (hL : 2 ≤ L) (href : ref.length = L)
+    (hagree : ∀ a ∈ A, a.2.take L = ref)
+    (h : finalize s choices = .ok out) :
+    s.final ++ (ref.drop 1) <+: out.st.final := by
+  have _ := hq  -- implied by `h`
+  have hkv : keptVectors s = kept s := rfl
+  have hqs : quorumSize s = req s := rfl
+  rw [hkv] at hA hothers
+  rw [hqs] at hAq hothers
+  have hAlen := hA.length_le
+  have hkp : (kept s).length ≤ (proven s).length := List.length_filterMap_le _ _
+  obtain ⟨hreq, h⟩ := finalize_ok h
+  rcases h with ⟨hlt, -, -⟩ | ⟨-, -, ⟨hlt, -⟩ | ⟨hge, rest, acc, hag, hres⟩⟩
+  · omega
+  · omega
+  · have hlm : L ≤ lengthMax s := by
+      unfold lengthMax
+      refine nthLength_ge hreq hA hothers hge ?_
+      intro a ha
+      have := congrArg List.length (hagree a ha)
+      rw [List.length_take, href] at this
+      omega
+    have hinit : Inv2 (req s) A L ref 1 (kept s) none :=
+      ⟨hge, fun d _ k hk1 hk2 _ => by omega, fun _ => ⟨hA, hothers⟩, fun _ => rfl,
+        fun i cp hc => by cases hc⟩
+    obtain ⟨i, cp, hacc, hi, hne, hcols⟩ :=
+      agree_inv2 hreq hAq hL href hagree _ _ _ _ _ _ _ hinit (by omega) hag
+    rcases hres with ⟨hnone, -⟩ | ⟨index, cp', pid, cps, tl, hacc', hrest, hf⟩
+    · rw [hacc] at hnone; cases hnone
+    · rw [hacc] at hacc'
+      simp only [Option.some.injEq, Prod.mk.injEq] at hacc'
+      obtain ⟨rfl, rfl⟩ := hacc'
+      rw [hf, List.prefix_append_right_inj]
+      refine prefix_of_agree href hi ?_
+      intro k hk1 hk2
+      exact hcols (pid, cps) (by rw [hrest]; simp) k hk1 hk2
 
 /-! ## `add_check_points` accepts only aligned, contiguous, anchored batches -/
 
+/-- **C07 (check point batches).**  An accepted batch starts at a multiple of the interval, at
+exactly the number of the peer's last check point, repeats that check point as its first
+element and has at least two elements; the peer's vector is only ever extended (never emptied,
+never rewritten), by elements of the batch in order. -/
+theorem add_checked (interval : Nat) (p p' : PeerCp) (lastProved startNumber : Nat)
+    (cps : List Nat) (next : Option Nat)
+    (h : addCheckPoints interval p lastProved startNumber cps = .ok (p', next)) :
+    startNumber % interval = 0 ∧ startNumber = lastNumber interval p ∧
+    p.cps.getLast? = cps.head? ∧ 2 ≤ cps.length ∧
+    p'.start = p.start ∧ p'.proved = p.proved ∧
+    ∃ k, k ≤ cps.length - 1 ∧ p'.cps = p.cps ++ (cps.drop 1).take k := by
+  unfold addCheckPoints at h
+  cases cps with
+  | nil => simp at h
+  | cons first tl =>
+    simp only at h
+    split at h
+    · cases h
+    split at h
+    · cases h
+    split at h
+    · cases h
+    split at h
+    · cases h
+    rename_i h1 h2 h3 h4
+    simp only [Except.ok.injEq, Prod.mk.injEq] at h
+    obtain ⟨hp, -⟩ := h
+    simp only [ne_eq, Decidable.not_not] at h1 h2 h3
+    refine ⟨h1, h2, by simpa using h3, by omega, ?_⟩
+    subst hp
+    split
+    · refine ⟨rfl, rfl, tl.length, by simp, by simp⟩
+    · split
+      · refine ⟨rfl, rfl, tl.length - 1, by simp, by simp⟩
+      · refine ⟨rfl, rfl, 0, by simp, by simp⟩
 
 /-! ## non-vacuity -/
 
